@@ -112,7 +112,7 @@ def ensure_facts(cfg="Q", repo=REPO, quiet=False):
         shutil.rmtree(tmp_out, ignore_errors=True)
         # bound the cache: keep the 6 most recent fact files
         olds = sorted(glob.glob(os.path.join(CACHE, "facts", "*.jsonl")), key=os.path.getmtime)
-        for o in olds[:-12]:
+        for o in olds[:-24]:
             os.unlink(o)
         if not quiet:
             print(f"[extract] config {cfg}: {meta['b']['bodies']} bodies from {nfiles} source files in {time.time()-t0:.1f}s", file=sys.stderr)
